@@ -694,9 +694,33 @@ class PluckVars:
 			if isinstance(parent, Relay) and parent.prop == node:
 				continue
 
+			if cls._declared_in_nested_scope(via, node):
+				continue
+
 			nodes.append(node)
 
 		return nodes
+
+	@classmethod
+	def _declared_in_nested_scope(cls, via: Node, var: Var) -> bool:
+		"""指定のノード配下の入れ子のスコープ(内包表記/ラムダ)で宣言された変数の参照か判定
+
+		Args:
+			via: ノード
+			var: 変数参照ノード
+		Returns:
+			True = 入れ子のスコープの変数
+		Note:
+			内包表記のループ変数やラムダの引数は、そのスコープの外側には存在しないため参照変数に含めない
+		"""
+		curr = var.parent
+		while curr != via:
+			if isinstance(curr, (Generator, Lambda)) and var.domain_name in [decl_var.symbol.domain_name for decl_var in curr.decl_vars]:
+				return True
+
+			curr = curr.parent
+
+		return False
 
 
 class DeclableMatcher:
